@@ -48,6 +48,15 @@ Definition ldr_eqb (a b : ldrst) : bool :=
   Bool.eqb (ld_tr_resp a) (ld_tr_resp b) && Bool.eqb (ld_tr_newterm a) (ld_tr_newterm b) &&
   (ld_tr_tid a =? ld_tr_tid b) && list_eqb N.eqb (ld_waitstable a) (ld_waitstable b) && (ld_removelte a =? ld_removelte b).
 
+Definition snapreq_eqb (a b : snapreqst) : bool :=
+  (sr_tid a =? sr_tid b) && (sr_index a =? sr_index b) && (sr_term a =? sr_term b) && config_eqb (sr_config a) (sr_config b) &&
+  match sr_done a, sr_done b with
+  | SnapPending, SnapPending => true
+  | SnapOk x, SnapOk y => x =? y
+  | SnapFail x, SnapFail y => x =? y
+  | _, _ => false
+  end.
+
 (* [m] is the model's state, [g] the implementation's.  Equal field by field,
    except st_flushed where the model carries a lower bound. *)
 Definition nstate_eqb (m g : nstate) : bool :=
@@ -57,7 +66,8 @@ Definition nstate_eqb (m g : nstate) : bool :=
   (st_snapterm m =? st_snapterm g) && config_eqb (st_snapcfg m) (st_snapcfg g) &&
   config_eqb (st_committed m) (st_committed g) && config_eqb (st_latest m) (st_latest g) &&
   (st_role m =? st_role g) && (st_leader m =? st_leader g) && (st_commit m =? st_commit g) &&
-  Bool.eqb (st_timer m) (st_timer g) && Bool.eqb (st_snapbusy m) (st_snapbusy g) && Bool.eqb (st_closed m) (st_closed g) &&
+  Bool.eqb (st_timer m) (st_timer g) && Bool.eqb (st_snapbusy m) (st_snapbusy g) &&
+  opt_eqb snapreq_eqb (st_snapreq m) (st_snapreq g) && Bool.eqb (st_closed m) (st_closed g) &&
   (st_fsmidx m =? st_fsmidx g) && (st_fsmterm m =? st_fsmterm g) && Bool.eqb (st_aborted m) (st_aborted g) &&
   (st_votesneeded m =? st_votesneeded g)%Z && Bool.eqb (st_cndtransfer m) (st_cndtransfer g) &&
   opt_eqb ldr_eqb (st_ldr m) (st_ldr g).
@@ -73,6 +83,7 @@ Definition diff_fields (m g : nstate) : list string :=
    f (config_eqb (st_committed m) (st_committed g)) "configs.Committed"%string ++ f (config_eqb (st_latest m) (st_latest g)) "configs.Latest"%string ++
    f (st_role m =? st_role g) "state"%string ++ f (st_leader m =? st_leader g) "leader"%string ++ f (st_commit m =? st_commit g) "commitIndex"%string ++
    f (Bool.eqb (st_timer m) (st_timer g)) "timer.active"%string ++ f (Bool.eqb (st_snapbusy m) (st_snapbusy g)) "snapInProgress"%string ++
+   f (opt_eqb snapreq_eqb (st_snapreq m) (st_snapreq g)) "snapshot-task"%string ++
    f (Bool.eqb (st_closed m) (st_closed g)) "closed"%string ++ f (st_fsmidx m =? st_fsmidx g) "fsm.index"%string ++
    f (st_fsmterm m =? st_fsmterm g) "fsm.term"%string ++ f (Bool.eqb (st_aborted m) (st_aborted g)) "electionAborted"%string ++
    f (st_votesneeded m =? st_votesneeded g)%Z "votesNeeded"%string ++ f (Bool.eqb (st_cndtransfer m) (st_cndtransfer g)) "cnd.transfer"%string ++
@@ -148,7 +159,8 @@ Definition check_with (opt : options) (pre : nstate) (ev : nevent) (out : gout) 
 
 (* map-iteration oracle: the case agrees if some visiting order reproduces it *)
 Definition orders (opt : options) : list options :=
-  map (fun o => mkOptions (o_shutdown_on_remove opt) (o_quorum_wait opt) (o_slow opt) (o_newprev opt) o) (perms (o_order opt)).
+  map (fun o => mkOptions (o_shutdown_on_remove opt) (o_quorum_wait opt) (o_slow opt) (o_newprev opt) (o_newremovelte opt) o)
+      (perms (o_order opt)).
 
 Definition check_ncase (c : ncase) : N :=
   match c with
